@@ -121,6 +121,8 @@ func smtInt(n int64) string {
 }
 
 func sel(a, i string) string        { return "(select " + a + " " + i + ")" }
+func sel2(h, a, i string) string    { return "(select " + h + " (pr " + a + " " + i + "))" }
+func sto2(h, a, i, v string) string { return "(store " + h + " (pr " + a + " " + i + ") " + v + ")" }
 func sto(a, i, v string) string     { return "(store " + a + " " + i + " " + v + ")" }
 func app(f string, a ...string) string { return "(" + f + " " + strings.Join(a, " ") + ")" }
 
@@ -315,6 +317,19 @@ type State struct {
 	ghost map[string]string // named ghost scalars
 	epoch  int
 	defers []deferred
+	writes map[string][]string // heap component -> outer indices written ("*" = unknown)
+}
+
+func (s *State) logWrite(comp, outer string) {
+	if s.writes == nil {
+		s.writes = map[string][]string{}
+	}
+	for _, w := range s.writes[comp] {
+		if w == outer {
+			return
+		}
+	}
+	s.writes[comp] = append(append([]string(nil), s.writes[comp]...), outer)
 }
 
 func (s *State) clone() *State {
@@ -329,6 +344,12 @@ func (s *State) clone() *State {
 		n.ghost[k] = v
 	}
 	n.pc = append([]string(nil), s.pc...)
+	if s.writes != nil {
+		n.writes = make(map[string][]string, len(s.writes))
+		for k, v := range s.writes {
+			n.writes[k] = v
+		}
+	}
 	return n
 }
 
